@@ -65,6 +65,7 @@ def oracle_boxes(state: str, level: str):
 
 
 def _leaves(ctx, level, state):
+    fire = state.endswith("_fired")
     key = f"c05:{level}:{state}"
     if key in ctx.cache:
         return ctx.cache[key]
@@ -72,7 +73,7 @@ def _leaves(ctx, level, state):
         "_core:WebSocket.send_close": lambda I, run, a, k, n: run.effect("send_close", a[1:], k, node=n) and None or C(None),
         "_core:WebSocket.pong": lambda I, run, a, k, n: run.effect("pong", a[1:], k, node=n) and None or C(None),
     }))
-    outs = explore_recv(ctx, I, level, state)
+    outs = explore_recv(ctx, I, level, state, fire=TRUE if fire else None)
     leaves = []
     for o in outs:
         if o.kind == "cutoff":
@@ -148,9 +149,11 @@ def r4(ctx):
         _check(ctx, level, "idle", lambda k, n: n.startswith(("close-reason", "close-with-reason")))
 
 
-@rule("R-C05-5", min_instances=5, title="sequencing: continuation while idle, new data frame inside a message")
+@rule("R-C05-5", min_instances=8, title="sequencing: continuation while idle, new data frame inside a message")
 def r5(ctx):
-    for state in ("idle", "text", "binary"):
+    # 'text_fired' / 'binary_fired': per-fragment delivery (fire_cont_frame) with a message in progress --
+    # the reassembly buffer is empty between fragments there, so the in-progress marker alone must carry the sequencing
+    for state in ("idle", "text", "binary", "text_fired", "binary_fired"):
         _check(ctx, "recv_data_frame", state,
                lambda k, n: n.startswith(("continuation-without", "new-data-frame", "data-frame")))
 
